@@ -292,6 +292,13 @@ func (r *Raft) onInstallSnapRequest(req *installSnapReq, c *conn) (rpcResult, er
 	r.setState(Follower)
 	r.setLeader(req.src)
 
+	if req.lastIndex <= r.commitIndex {
+		// stale request (delivered late on an abandoned connection): we
+		// already hold everything this snapshot covers. installing it
+		// would discard committed entries following it
+		return drain(success, nil)
+	}
+
 	// store snapshot
 	sink, err := r.snaps.new(req.lastIndex, req.lastTerm, req.lastConfig)
 	if err != nil {
